@@ -1,3 +1,4 @@
+mod alloc;
 mod c03;
 mod common;
 mod driver;
@@ -10,7 +11,11 @@ mod scen_b;
 mod scen_c;
 mod scen_d;
 mod scen_e;
+mod scen_f;
 mod variants;
+
+#[global_allocator]
+static GLOBAL: alloc::Counting = alloc::Counting;
 
 fn usage() -> i32 {
     eprintln!(
@@ -36,6 +41,13 @@ fn main() {
                     println!("  {l}");
                 }
             }
+            0
+        }
+        Some("load-file") if args.len() >= 2 => {
+            // debugging aid: load a file with the simulated build (in-order schedule) and the sequential build
+            let b = std::fs::read(&args[1]).expect("read");
+            println!("sim: {:?}", variants::sim::load_outcome(&b));
+            println!("seq: {:?}", variants::seq::load_outcome(&b));
             0
         }
         Some("list") => {
